@@ -111,7 +111,22 @@ def gen_cases(c):
         cases.append("str:0:%s 0 as:str" % hx(s))
         cases.append("str:0:%s 0 as:bytes" % hx(s))
         cases.append("str:0:%s 0 as:f64" % hx(s))
+        cases.append("str:0:%s 0 as:f32" % hx(s))
+    # decimal strings for the float targets: range limits of both widths, sub-normals, a double-rounding witness
+    # (1+2^-24+eps rounds up as float32 but to 1.0 through float64), hex floats, infinities, NaNs, malformed
+    for s in FLOAT_STRINGS + [repr(r.uniform(-1e40, 1e40)) for _ in range(40 if not full else 600)] + \
+            ["%de%d" % (r.randint(-99999, 99999), r.randint(-330, 330)) for _ in range(40 if not full else 600)]:
+        cases.append("str:0:%s 0 as:f32" % hx(s))
+        cases.append("str:0:%s 0 as:f64" % hx(s))
     return cases
+
+
+FLOAT_STRINGS = ["1e39", "-1e39", "3.4028235e38", "3.4028236e38", "3.40282357e38", "1e-46", "1e-45", "1.4e-45", "7e-46",
+                 "1.000000059604644775390626", "1.000000059604644775390625", "1.000000059604644775390624", "0.1", "16777217",
+                 "16777216", "1e309", "-1e309", "1.7976931348623157e308", "1.7976931348623159e308", "4.9e-324", "2e-324", "2.5e-324",
+                 "Inf", "-Inf", "+Inf", "infinity", "nan", "NaN", "-nan", "0x1p-2", "0x1.fffffep127", "0x1p128", "1_0", "1e", ".5", "5.",
+                 "1e+2", " 1.5", "1.5 ", "١.٥", "1.5e", "e5", "-", "+", "-0", "0.0", "-0.0", "1e400", "1e-400", "0.000000000000000000000000000000000000000000001",
+                 "340282346638528859811704183484516925440", "340282356779733661637539395458142568448", "9007199254740993", "1.5", "2.5", "-2.5"]
 
 
 NUM_S = re.compile(rb"\A[+-]?[0-9]+\Z")
